@@ -192,7 +192,7 @@ def rule_exec(ctx):
             w = body.must_before(x.bb, ctx.both(inf, lambda n: n in reset_blocks))
             R.ob('EXEC-1', key, w is None, 'the task is reset (output dropped, outgoing edges removed) on every path before it is executed'
                  if w is None else 'a path reaches the execution of the task without resetting it first:\n' + body.fmt_path(w),
-                 ctx.where(body, x.bb), props=('C01', 'C02', 'C06', 'C08', 'C19', 'C20'))
+                 ctx.where(body, x.bb), props=('C01', 'C02', 'C06', 'C08', 'C09', 'C19', 'C20'))
             reset_nodes = set()
             for bb in reset_blocks:
                 for k in ev_reset.keys_at(body, bb):
